@@ -58,6 +58,7 @@ func (in *Interp) builtin(fr *Frame, name string, c *ssa.CallCommon, args []Valu
 			if a.m == nil {
 				return ts.ConstU(64, 0)
 			}
+			in.resolveLazyMap(a.m) // x_c03.go
 			return ts.ConstU(64, uint64(len(a.m.entries)))
 		case *ArrayV:
 			return ts.ConstU(64, uint64(len(a.e)))
